@@ -28,16 +28,23 @@ P = {
              'tokens is bounded (regex semantics).',
         note='Trusted: re for terminal tokenisation and region lexing (bounded stand-in over generated scripts), the '
              'grammar of DESIGN 4.5 as the induction structure, the composition argument, pyvc, z3.',
-        tech=TECH + 'grammar induction lemmas over the splitter transition code; bounded stand-in for lexing', ref='5 C05'),
+        tech=TECH + 'grammar induction lemmas over the splitter transition code; regular-language obligations on the '
+             'region rules (z3 regex theory, DESIGN 0.8); bounded stand-in for the rest of lexing', ref='5 C05'),
     'C14': dict(
         text='Proof for the dictionary half: Lexer.is_keyword returns (type from the FIRST dictionary listing '
              'upper(word), else Name; the word unchanged) for any list of dictionaries (loop invariant with a ghost '
              'first-hit index); data obligations on dictionary order, keys, reset, rule order and first characters. '
-             'Opacity of literal/comment bodies and one-token lexing of every dictionary word are regex semantics: '
-             'bounded stand-in (exhaustive bodies <= 3 over a class alphabet x delimiter contexts; all dictionary '
-             'words x 4 casings), labelled bounded.',
-        note='Trusted: CPython re (bounded only), dict membership/lookup as uninterpreted functions, pyvc, z3.',
-        tech=TECH + 'bounded exhaustive enumeration for the regex half', ref='5 C14'),
+             'Opacity of literal/comment bodies: the region rules of the real SQL_REGEX translated to regular languages '
+             'and three obligations per region kind decided by z3 (regex theory): every well-formed region is in its '
+             'rule\'s language, a lazy rule cannot stop before the region ends, a greedy rule cannot run past it; every '
+             'counter-model is replayed on the real lexer (not reproduced = undecided).  Which of several matching '
+             'prefixes backtracking picks, surrounding contexts, look-around rules, dollar-quoted bodies and one-token '
+             'lexing of every dictionary word: bounded stand-in (exhaustive bodies <= 3 over a class alphabet x '
+             'delimiter contexts; all dictionary words x 4 casings), labelled bounded.',
+        note='Trusted: the translation of re syntax to a regular language (pyvc/regexlang.py), CPython re for match '
+             'selection (bounded only), dict membership/lookup as uninterpreted functions, pyvc, z3.',
+        tech=TECH + 'regular-language obligations over the lexer table (z3 regex theory) with replay; bounded exhaustive '
+             'enumeration for match selection and contexts', ref='5 C14, 0.8'),
     'C17': dict(
         text='Proof by structural induction over the procedural productions (block, IF..END IF, WHILE..DO..END WHILE, '
              'LOOP..END LOOP, CASE expressions, nested blocks, plain statements inside bodies incl. DDL with IF [NOT] EXISTS and the IF() function) as Hoare triples over '
